@@ -1,4 +1,4 @@
-CONSTANTS Tasks = {0,1,2,3,4,5,6,7,8,9,10,11,12,13,14,15}  Bug = "none"
+CONSTANTS Tasks = {0,1,2,3,4,5,6,7,8,9,10,11,12,13,14,15,16}  Bug = "none"
 INIT Init
 NEXT Next
 CONSTRAINT HWM
